@@ -304,7 +304,16 @@ def run_rebuild(case, world, captured):
             oc = drive.cli_execute(["rebuild", "-m"] + metas + ["-c"] + search + ["-d", dest])
         else:
             try:
-                oc = drive.Outcome(ret=rebuild.Assembler(metas, search, dest).assemble_torrents())
+                if case.get("reuse_assembler"):
+                    # ONE Assembler object serves every rebuild of the case (kept in `world`)
+                    asm = world.get("_assembler")
+                    if asm is None:
+                        asm = world["_assembler"] = rebuild.Assembler(metas, search, dest)
+                    else:
+                        captured["assembler_reused"] = True
+                    oc = drive.Outcome(ret=asm.assemble_torrents())
+                else:
+                    oc = drive.Outcome(ret=rebuild.Assembler(metas, search, dest).assemble_torrents())
             except BaseException as exc:  # noqa
                 import traceback
                 oc = drive.Outcome(exc=exc, tb=traceback.format_exc())
@@ -584,6 +593,7 @@ class C14:
         case = gen_scenario(rng, tier, prepop_kinds=kinds)
         case["repeats"] = rng.choice([1, 1, 2, 3])
         case["spoil_between"] = case["repeats"] > 1 and rng.random() < 0.4
+        case["reuse_assembler"] = case["repeats"] > 1 and case["via"] == "lib" and rng.random() < 0.5
         return case
 
     @staticmethod
@@ -637,6 +647,8 @@ class C14:
             details = list(env.AUDIT.details)
             if captured.get("paths_respelled"):
                 counters["directories_respelled_cases"] = 1
+            if captured.get("assembler_reused"):
+                counters["assembler_object_reused_runs"] = counters.get("assembler_object_reused_runs", 0) + 1
             returned.append(oc.ret if oc.ok else oc.excname())
             decoy_first += _decoy_first(world, captured)
             counters["copy_events"] = counters.get("copy_events", 0) + _placing_events(events, details, world["dest"])
@@ -764,7 +776,8 @@ class C19:
             files.append([comps, rng.choice([5, 100, 16384, 20000, 0, 0, 32768]), rng.randrange(1 << 30)])
         name = h1 if pos in ("name", "both") else rng.choice(["T", "pay load"])
         return {"version": version, "pos": pos, "name": name, "files": files, "via": rng.choice(["lib", "cli"]),
-                "single": False, "seed": rng.randrange(1 << 30), "meta_as_dir": rng.random() < 0.35}
+                "single": False, "seed": rng.randrange(1 << 30), "meta_as_dir": rng.random() < 0.35,
+                "retry_same_object": rng.random() < 0.35}
 
     @staticmethod
     def run(case, scratch):
@@ -840,7 +853,18 @@ class C19:
                 oc = drive.cli_execute(["rebuild", "-m", marg, "-c", search, "-d", dest])
             else:
                 try:
-                    oc = drive.Outcome(ret=rebuild.Assembler([marg], [search], dest).assemble_torrents())
+                    asm = rebuild.Assembler([marg], [search], dest)
+                    try:
+                        oc = drive.Outcome(ret=asm.assemble_torrents())
+                    except BaseException as exc:  # noqa
+                        oc = drive.Outcome(exc=exc, tb="")
+                    if case.get("retry_same_object"):
+                        # a caller that catches the refusal and simply tries again with the object it has
+                        counters_retry = True
+                        try:
+                            oc = drive.Outcome(ret=asm.assemble_torrents())
+                        except BaseException as exc:  # noqa
+                            oc = drive.Outcome(exc=exc, tb="")
                 except BaseException as exc:  # noqa
                     oc = drive.Outcome(exc=exc, tb="")
         finally:
